@@ -4,7 +4,7 @@ From TS Require Import Model.Str Model.Outcome Model.Unicode Model.Types Model.P
                        Model.Lang.TypeScript Model.Lang.Kotlin Model.Lang.Scala Model.Lang.Go Spec.C09Spec.
 From TS Require Import Model.Lang.Swift Model.Lang.Python.
 From TS Require Proofs.C09Common Proofs.C09Recon Proofs.C09Refs Proofs.C09_KotlinFile Proofs.C09Witness Proofs.C09Final.
-From TS Require Proofs.C09_TypeScript.
+From TS Require Proofs.C09_TypeScript Proofs.C09_Scala.
 Import ListNotations.
 From TS Require Props.C09.
 
@@ -54,6 +54,19 @@ Goal forall (uc : unicode) (cfg : ts_config) (pd : parsed),
       good_C09 TypeScript [] pd (c09_observe TypeScript fd) = true.
 Proof. exact Props.C09.C09_no_rename_TypeScript. Qed.
 Print Assumptions Props.C09.C09_no_rename_TypeScript.
+Goal forall (uc : unicode) (cfg : sc_config) (acrs : list str) (pd : parsed),
+    dom_C09 Scala [] pd = true -> known_C09 Scala [] acrs pd = None ->
+    forall fd : file_decls, sc_file_decls uc cfg (Proofs.C09Recon.c09_reconciled pd) = Ok fd ->
+      good_C09 Scala [] pd (c09_observe Scala fd) = true.
+Proof. exact Props.C09.C09_Scala. Qed.
+Print Assumptions Props.C09.C09_Scala.
+Goal forall (uc : unicode) (cfg : sc_config) (pd : parsed),
+    dom_C09 Scala [] pd = true ->
+    (forall e, In e (c09_entities pd) -> c09_renamed_away (c9e_id e) = false) ->
+    forall fd : file_decls, sc_file_decls uc cfg (Proofs.C09Recon.c09_reconciled pd) = Ok fd ->
+      good_C09 Scala [] pd (c09_observe Scala fd) = true.
+Proof. exact Props.C09.C09_no_rename_Scala. Qed.
+Print Assumptions Props.C09.C09_no_rename_Scala.
 Goal forall (L : lang) (pfx : str) (pd : parsed),
     (forall e, In e (c09_entities pd) -> c09_renamed_away (c9e_id e) = false) ->
     (forall a, In a (p_aliases pd) -> c09_inline_generic_class L pfx a = None) ->
